@@ -25,6 +25,6 @@ for c in $(git log --format=%h --grep='^fix:'); do
   fi
   git reset -q --hard HEAD
   # reverts that apply textually but no longer compile against later fixes are kept as rebased by hand
-  case "$n" in revert_traitof_counter) echo "$n kept (rebased by hand)"; continue;; esac
+  case "$n" in revert_traitof_counter|revert_restore_expirations|revert_never_expiring_cleanup|revert_atomic_expiration|revert_syncmap_restore) echo "$n kept (rebased by hand)"; continue;; esac
   if git revert -n $c >/dev/null 2>&1; then git diff HEAD > /verif/mutants/$n.diff; echo "$n ok"; else git revert --abort 2>/dev/null; echo "$n CONFLICT (rebase by hand)"; fi
 done
